@@ -136,9 +136,9 @@ func RunQuorum(tier string) *Report {
 		}
 	}
 	r.Domains = append(r.Domains, "majority: voter sets of size 0..7 (contiguous and scattered ids), all acked-index vectors over {missing,0,1,2,3} (n<=5) / {missing,0,1,2} (n=6,7), all vote vectors")
-	top := 9
+	top := 11
 	if tier == "thorough" {
-		top = 11
+		top = 13
 	}
 	for n := 8; n <= top; n++ {
 		for _, ids := range idSets(n) {
@@ -147,6 +147,46 @@ func RunQuorum(tier string) *Report {
 	}
 	r.Domains = append(r.Domains, fmt.Sprintf("majority beyond the on-stack fast path: sizes 8..%d, all vectors over {missing,0,1}", top))
 
+	// large voter sets (beyond any fixed-size scratch buffer): not all vectors, but the complete
+	// "threshold" family – for every k and every rotation, k voters report the high value, the
+	// others the low value or nothing – which contains every majority boundary
+	for _, n := range []int{16, 17, 32, 33, 64, 65} {
+		ids := make([]uint64, n)
+		for i := range ids {
+			ids[i] = uint64(i + 1)
+		}
+		cfg := setOf(ids)
+		for k := 0; k <= n; k++ {
+			for rot := 0; rot < n; rot++ {
+				for _, low := range []int{missing, 0, 3} {
+					acked := map[uint64]uint64{}
+					l := mapIdx{}
+					votes := map[uint64]bool{}
+					for i := range ids {
+						x := low
+						if (i+rot)%n < k {
+							x = 7
+						}
+						if x != missing {
+							acked[ids[i]] = uint64(x)
+							l[ids[i]] = quorum.Index(x)
+							votes[ids[i]] = x == 7
+						}
+					}
+					got, want := uint64(cfg.CommittedIndex(l)), refmodel.CommittedIndex(ids, acked)
+					r.Evaluations++
+					r.Nontrivial++
+					if got != want {
+						fail("MajorityConfig(1..%d).CommittedIndex with %d voters at 7 (rotation %d), the others at %d = %d, reference %d", n, k, rot, low, got, want)
+					}
+					if g, w2 := int(cfg.VoteResult(votes)), refmodel.VoteResult(ids, votes); g != w2 {
+						fail("MajorityConfig(1..%d).VoteResult with %d yes (rotation %d) = %d, reference %d", n, k, rot, g, w2)
+					}
+				}
+			}
+		}
+	}
+	r.Domains = append(r.Domains, "majority with 16, 17, 32, 33, 64, 65 voters: the complete threshold family (every count k of high acknowledgements/yes votes, every rotation, the rest low, lower or missing)")
 	// joint configurations: all ordered pairs of subsets of {1..u}
 	u := 4
 	idxVals := []int{missing, 0, 1, 2}
